@@ -25,6 +25,7 @@ type Obligation struct {
 	Model  string
 	Info   map[string]string // extra: rendered model terms to ask for
 	Ask    []string          // terms whose values are requested with get-value
+	Trivial bool
 }
 
 type State struct {
@@ -69,6 +70,9 @@ type Options struct {
 	NoLambda    bool
 	SkipProven  map[string]bool // owner/local names proved standalone: skipped when inlined
 	RootSafetyOnly bool         // no safety obligations inside inlined frames
+	Setup func(e *Exec)         // installs hooks / ghost state before a run
+	NoArgWrite bool             // family M: no store into an Object array that existed at entry
+	ResultIndependent string    // family M: "" | "fresh" | "fresh-or-tail"
 }
 
 type Exec struct {
@@ -105,6 +109,9 @@ type Exec struct {
 	retHooks []func(e *Exec, fr *Frame, st *State, res []Value)
 	usedLoopKeys map[string]bool
 	pendingExact *Term
+	InitHeap map[string]*Term
+	rootArgs *Term
+	retN     int
 }
 
 // Hook lets a family observe calls (ghost state).
@@ -163,9 +170,7 @@ func (e *Exec) note(f string, a ...any) {
 // of the instruction among the instructions of its own function that have
 // the same kind@anchor (never a line number).
 func (e *Exec) oblige(st *State, kind, anchor string, goal *Term, pos string, ask ...*Term) *Obligation {
-	if goal.S == "true" {
-		return nil
-	}
+	trivial := goal.S == "true" || st.pc.S == "false"
 	fn := FuncName(e.Root)
 	base := kind
 	if anchor != "" {
@@ -174,7 +179,7 @@ func (e *Exec) oblige(st *State, kind, anchor string, goal *Term, pos string, as
 	local := base
 	via := ""
 	owner := fn
-	if e.curIn != nil && e.curFr != nil && (strings.HasPrefix(kind, "safe:") || strings.HasPrefix(kind, "exact:") || strings.HasPrefix(kind, "fresh-recv")) {
+	if e.curIn != nil && e.curFr != nil && (strings.HasPrefix(kind, "safe:") || strings.HasPrefix(kind, "exact:") || strings.HasPrefix(kind, "fresh-recv") || strings.HasPrefix(kind, "frame:")) {
 		if n := e.P.staticOrdinal(e.curFr.fn, e.curIn, base); n > 1 {
 			local += fmt.Sprintf("#%d", n)
 		}
@@ -195,8 +200,10 @@ func (e *Exec) oblige(st *State, kind, anchor string, goal *Term, pos string, as
 			local += fmt.Sprintf("#%d", n)
 		}
 	}
-	e.flushImplFacts()
-	e.flushHashFacts()
+	if !trivial {
+		e.flushImplFacts()
+		e.flushHashFacts()
+	}
 	name := fn + "/" + via + local
 	if e.seenName[name] > 0 {
 		// same instruction reached twice (should not happen): disambiguate
@@ -208,6 +215,12 @@ func (e *Exec) oblige(st *State, kind, anchor string, goal *Term, pos string, as
 		if a != nil {
 			o.Ask = append(o.Ask, a.S)
 		}
+	}
+	if trivial {
+		// decided by term simplification (constant folding) while generating the VC
+		o.Status = "discharged"
+		o.Solver = "simplifier"
+		o.Trivial = true
 	}
 	e.Obls = append(e.Obls, o)
 	return o
@@ -505,6 +518,9 @@ func (e *Exec) storeLoc(st *State, a *Loc, v Value, t types.Type) {
 		st.heap[a.Comp] = e.def(h.Sort, Store(h, a.Ref, e.asTerm(st, v, t)))
 	case LElem:
 		s := sortOf(t)
+		if e.Opt.NoArgWrite && s == SObj && e.curIn != nil {
+			e.oblige(st, "frame:store", render(e.storeAddr(e.curIn), 0), Le(e.heapRead(e.entry, "$alloc", SInt), a.Ref), e.posOf(e.curIn), a.Ref)
+		}
 		h := e.heapRead(st, a.Comp, ArrSort(ArrSort(s)))
 		inner := Store(Select(h, a.Ref), a.Idx, e.asTerm(st, v, t))
 		st.heap[a.Comp] = e.def(h.Sort, Store(h, a.Ref, inner))
@@ -745,3 +761,13 @@ func (e *Exec) mergeStates(ins []*State) *State {
 	return out
 }
 
+
+func (e *Exec) storeAddr(in ssa.Instruction) ssa.Value {
+	if s, ok := in.(*ssa.Store); ok {
+		return s.Addr
+	}
+	if v, ok := in.(ssa.Value); ok {
+		return v
+	}
+	return nil
+}
